@@ -125,6 +125,13 @@ SYSTEMS = {
             [[0.00, 0.00, 0.00], [0.74, 0.00, 0.00], [0.0, 0.0, 0.0]],
         ],
     ),
+    "nh3_h2o": dict(
+        species=[[7, 1, 1, 1], [8, 1, 1, 0]],
+        coordinates=[
+            [[0.0, 0.0, 0.12], [0.94, 0.0, -0.27], [-0.47, 0.81, -0.27], [-0.47, -0.81, -0.27]],
+            [[0.00, 0.00, 0.00], [0.96, 0.00, 0.00], [-0.24, 0.93, 0.00], [0.0, 0.0, 0.0]],
+        ],
+    ),
     "h2": dict(species=[[1, 1]], coordinates=[[[0.0, 0.0, 0.0], [0.74, 0.0, 0.0]]]),
     "h2o": dict(species=[[8, 1, 1]], coordinates=[[[0.00, 0.00, 0.00], [0.96, 0.00, 0.00], [-0.24, 0.93, 0.00]]]),
     "h2co": dict(
